@@ -148,6 +148,20 @@ def stream_meaning(s, deviation=None):
     st = _blank()
     link = None
     unknown = 0
+    if deviation == "cr":
+        # rich 9.10.0: what follows the LAST carriage return of each line (a trailing CR erases the line)
+        s = "\n".join(l.rsplit("\r", 1)[-1] for l in s.split("\n"))
+    if deviation == "csi-lazy":
+        # rich 9.10.0: `ESC [ (.*?) m` — any CSI start swallows up to the next "m" and is read as SGR parameters
+        def lazy(m):
+            codes = []
+            for p in m.group(1).split(";"):
+                if p == "":
+                    codes.append("0")
+                elif p.isdigit() and p.isascii():
+                    codes.append(str(min(255, int(p))))
+            return "\x1b[" + ";".join(codes) + "m" if codes else ""
+        s = re.sub(r"\x1b\[([^\n]*?)m", lazy, s)
     if deviation == "empty":
         def drop(m):
             ps = [p for p in m.group(1).split(";") if p != ""]
